@@ -399,6 +399,28 @@ Definition run_case (c : case) : val :=
   let p2 := compare false (c_delete c) (o_ws o) (c_trees c) (c_target c) in
   VL [enc_plan p1; enc_ws (o_ws o); enc_errs (o_errs o); enc_bool (o_raised o); enc_plan p2].
 
+(* a retry history: round 1 with the directory objects [c_trees c], then - the target index being the same
+   object, a failed load having left its entry unloaded - round 2 from the resulting workspace with [tr2].
+   The cache persists between the rounds: an object that round 1 made executable (chmod through a hard or
+   symbolic link) still is in round 2, so a new link to it is executable at once ([fix_exec]; within one
+   apply from a fresh cache this cannot happen, chmod being the last phase). *)
+Definition xobjs_of (w : ws) : list bytes :=
+  flat_map (fun kv => match snd kv with File b true true => [b] | _ => [] end) w.
+Definition fix_exec (xs : list bytes) (w : ws) : ws :=
+  map (fun kv => match snd kv with
+                 | File b x true => if mem_bytes b xs then (fst kv, File b true true) else kv
+                 | _ => kv
+                 end) w.
+Definition run_retry (c : case) (tr2 : trees) (order2 order_dc2 : list key) : val :=
+  let p1 := compare false (c_delete c) (c_ws c) (c_trees c) (c_target c) in
+  let o1 := apply (c_link c) (c_avail c) (c_order c) (c_order_dc c) p1 (c_ws c) in
+  let p2 := compare false (c_delete c) (o_ws o1) tr2 (c_target c) in
+  let o2 := apply (c_link c) (c_avail c) order2 order_dc2 p2 (o_ws o1) in
+  let w2 := fix_exec (xobjs_of (o_ws o1)) (o_ws o2) in
+  let p3 := compare false (c_delete c) w2 tr2 (c_target c) in
+  VL [enc_plan p1; enc_ws (o_ws o1); enc_errs (o_errs o1); enc_bool (o_raised o1);
+      enc_plan p2; enc_ws w2; enc_errs (o_errs o2); enc_bool (o_raised o2); enc_plan p3].
+
 (* the per-change branch alone, on entries given by (present?, isdir, isexec, hash id) *)
 Definition mk_e (isdir isexec : bool) (h : option N) (k : key) : ientry :=
   mk_ientry (Some k) (Some (mk_m isdir isexec)) (option_map (fun n => hi_of [n]) h) None.
